@@ -39,9 +39,10 @@ FACTS = [
     r'using lr1_parse_table = parse_table_entry\[state_count_cap\]\[symbol_count\];',
     r'struct source_point\s*\{\s*size32_t line = 1;\s*size32_t column = 1;',
     r'bool verbose = false;\s*bool skip_whitespace = true;\s*bool skip_newline = true;\s*\};',
-    r'size16_t term_idx = uninitialized16;\s*size_t len = uninitialized16;\s*\};',
+    r'size16_t term_idx = uninitialized16;\s*\w+ len = uninitialized16;\s*\};',
 ]
 
+RT_TYPEDEFS = [('vx_rt_len_t', r'size16_t term_idx = uninitialized16;\s*(\w+) len = uninitialized16;\s*\};', None)]
 UNINIT = [('uninitialized', r'constexpr\s+size_t\s+uninitialized\s*=\s*([^;]+);', None),
           ('uninitialized16', r'constexpr\s+size16_t\s+uninitialized16\s*=\s*([^;]+);', None),
           ('uninitialized32', r'constexpr\s+size32_t\s+uninitialized32\s*=\s*([^;]+);', None)]
@@ -78,6 +79,6 @@ struct grammar_info {
 struct source_point { size32_t line; size32_t column; };
 struct parse_options { bool verbose; bool skip_whitespace; bool skip_newline; };
 struct match_options { bool verbose; };
-struct recognized_term { size16_t term_idx; size_t len; };
+struct recognized_term { size16_t term_idx; vx_rt_len_t len; };   /* member type from the real declaration (R16) */
 static inline size_t vx_idx(size_t i, size_t n) { __CPROVER_assert(i < n, "VX_BOUND subscript within the declared (logical) dimension"); return i; }
 ''' % (ph_states, ph_syms, ph_rules, ph_maxlen, ph_terms, ph_nterms)
